@@ -92,6 +92,15 @@ CHECKS["C02"] = dict(
    note="Partial: libstdc++, template instantiation and std::function lifetimes are executed, not modelled. Trusted: Coq kernel+vm_compute, hand "
         "transcription in Cpp/Model.v, canonical-text parser, g++ and rustc.",
    design="§5 C02")
+CHECKS["C09"] = dict(
+   text="Partial. Coq carries the bookkeeping of the generated C headers (Headers/Model.v: include sets, include-once expansion, declared-before-use "
+        "check; C09_check_composes, C09_uses_after_decls_ok) and the check is evaluated on the include graph parsed from the real headers of every run. "
+        "Whether output compiles is decided by the real toolchains on four corpora (generated grammar bridge, a bridge with cyclic references / "
+        "namespaces / renames / keyword-named parameters, feature_tests, example): rustc on the macro expansion, gcc -std=c11 -fsyntax-only on each C "
+        "header alone and all headers in random orders, g++ c++17 and c++20 likewise, node --check on every .mjs, include/import targets exist.",
+   note="Partial: the grammars of C/C++/JS/Rust are not modelled; the general declared-before-use theorem over all reference graphs is not proved "
+        "(evaluated per generated graph). Two recorded findings (known_findings.txt): keyword-escape collision, parameter named `this`.",
+   design="§5 C09")
 NOT_YET = {
 }
 ALL = [f"C{i:02d}" for i in range(1, 18)]
